@@ -41,7 +41,9 @@ FamStop(sig) == <<
   Sc(<<Sub(<<P(1), StopMe(sig), P(2), Ret(6)>>), P(3), Bg(1), P(4), Wait(1), P(5)>>, <<>>),
   Sc(<<Sub(<<P(1), StopMe(sig), P(2), StopMe(sig), P(3)>>), Fg(1), P(4), Fg(1), P(5)>>, <<>>),
   Sc(<<Sub(<<P(1), StopMe(sig), P(2)>>), Sub(<<P(3), StopMe(sig), P(4)>>), P(5), Fg(2), Fg(1), P(6)>>, <<>>),
-  Sc(<<Async(<<P(1), StopMe(sig), P(2)>>), P(3), Fg(1), P(4)>>, <<>>) >>
+  Sc(<<Async(<<P(1), StopMe(sig), P(2)>>), P(3), Fg(1), P(4)>>, <<>>),
+  \* the jobs a subshell inherits are not its own
+  Sc(<<Sub(<<P(1), StopMe(sig), P(2)>>), Sub(<<P(3), Fg(1), P(4), Bg(1), P(5)>>), Fg(1), P(6)>>, <<>>) >>
 
 \* jobs stopped and interrupted from the terminal (job control only)
 FamTty == <<
